@@ -1,7 +1,9 @@
 """C07 - backtest results up to any date do not depend on later market data."""
+import contextlib
 import datetime as D
 import json
 import random
+import shutil
 
 from hypothesis import strategies as st
 
@@ -19,7 +21,9 @@ RULE = ('Paired sessions: world A and world B share the configuration and all ma
         'points and recorded target-allocation rows dated <= T 23:59:59 compared by repr (bit for bit); if either '
         'run fails at a broker time <= T both must fail with the same error type at the same time; the public '
         'allocation table rows dated <= T are compared too; in a third of the cases each world first runs another '
-        'session and whole-file queries on the very same data-handler object. A is run twice '
+        'session and whole-file queries on the very same data-handler object; in half the files are laid out newest '
+        'first or shuffled; in a quarter the handler is given a second, differently priced source first whose files '
+        'end 0-9 days after T (subject to the same rewriting). A is run twice '
         'first; configurations where A != A\' are skipped and counted (that is C18\'s subject). Non-trivial = B '
         'differs from A after T, A has >= 1 fill at or before T, >= 1 rebalance after T, and T is not the last day.')
 ASSUMPTIONS = [
@@ -59,15 +63,50 @@ def run_case(case):
         changed = changed or ch
     syms = list(mk_a)
     reuse = case.get('reuse_handler', False)
+    order = case.get('file_order', 'sorted')
+    two = case.get('second_source')
+
+    def files(mk):
+        """The rows as they are laid out in the files (date order, newest first, or shuffled)."""
+        if order == 'sorted':
+            return mk
+        out = {}
+        for i, (s, rows) in enumerate(mk.items()):
+            rows = list(rows)
+            if order == 'reversed':
+                rows.reverse()
+            else:
+                random.Random(case['seed'] + 977 * i).shuffle(rows)
+            out[s] = rows
+        return out
+
+    def second(mk):
+        """A second vendor's files for the same symbols: other prices, and ending `two` days after the cut (the
+        rows dated <= T are the same function of the shared rows in both worlds)."""
+        stop = T + D.timedelta(days=two)
+        out = {}
+        for s, rows in mk.items():
+            rr = [r[:3] + [None if x is None else round(x * 1.25, 4) for x in r[3:]] for r in rows
+                  if D.date(r[0], r[1], r[2]) <= stop]
+            out[s] = rr or [r[:3] + [None if x is None else round(x * 1.25, 4) for x in r[3:]] for r in rows]
+        return out
 
     def world(path):
         """One world: optionally a prelude session first, on the very same data handler object (as the shipped
         examples do for strategy and benchmark), then the session under test."""
-        if not reuse:
+        if not reuse and two is None:
             return session.run_session(cfg, path, syms)
         q = load()
         ds = q.CSVDailyBarDataSource(path, q.Equity, adjust_prices=cfg.get('adjust', True), csv_symbols=list(syms))
-        dh = q.BacktestDataHandler(None, data_sources=[ds])
+        if two is not None:
+            # the handler is given the short second-vendor source first and the full one second
+            ds2 = q.CSVDailyBarDataSource(path + '_2', q.Equity, adjust_prices=cfg.get('adjust', True),
+                                          csv_symbols=list(syms))
+            dh = q.BacktestDataHandler(None, data_sources=[ds2, ds])
+            if not reuse:
+                return session.run_session(cfg, path, syms, data_source=ds, data_handler=dh)
+        else:
+            dh = q.BacktestDataHandler(None, data_sources=[ds])
         pre = json.loads(json.dumps(cfg))
         pre['alpha'] = {'kind': 'fixed', 'weights': {'EQ:' + s: 1.0 for s in syms}}
         pre['universe'] = {'kind': 'static', 'assets': ['EQ:' + s for s in syms]}
@@ -81,8 +120,18 @@ def run_case(case):
                 for f in (dh.get_asset_latest_bid_price, dh.get_asset_latest_ask_price, dh.get_asset_latest_mid_price):
                     f(end + D.timedelta(days=30 - back), a)
         return session.run_session(cfg, path, syms, data_source=ds, data_handler=dh)
+    @contextlib.contextmanager
+    def laid_out(mk):
+        with market.csv_dir(files(mk)) as pth:
+            if two is not None:
+                market.write_market(files(second(mk)), pth + '_2')
+            try:
+                yield pth
+            finally:
+                if two is not None:
+                    shutil.rmtree(pth + '_2', ignore_errors=True)
     clear_caches()
-    with market.csv_dir(mk_a) as pa:
+    with laid_out(mk_a) as pa:
         ra = world(pa)
         clear_caches()
         ra2 = world(pa)
@@ -90,7 +139,7 @@ def run_case(case):
     if da != da2 or (ra.error is None) != (ra2.error is None):
         return Result(['nondeterministic_skipped'], excluded='nondeterministic')
     clear_caches()
-    with market.csv_dir(mk_b) as pb:
+    with laid_out(mk_b) as pb:
         rb = world(pb)
     clear_caches()
     db = session.digest(rb, Tend)
@@ -109,6 +158,10 @@ def run_case(case):
     reb_after = sum(1 for c in ra.calls if c > Tend)
     if reuse:
         cls.append('handler_reused_after_another_session')
+    if order != 'sorted':
+        cls.append('files_' + order)
+    if two is not None:
+        cls.append('two_sources_first_one_ends_near_cut')
     if ra.error:
         cls.append('session_error_' + ra.error[0])
     if ea:
@@ -143,7 +196,9 @@ def cases(draw):
     cut = d0 + D.timedelta(days=draw(st.one_of(st.integers(n // 4, (3 * n) // 4), st.integers(0, n))))
     return {'cfg': cfg, 'market': mk, 'cut': [cut.year, cut.month, cut.day],
             'mode': draw(st.sampled_from(['rewrite', 'rewrite', 'delete', 'mix'])), 'seed': draw(st.integers(0, 10 ** 6)),
-            'labels': labels + lab, 'reuse_handler': draw(st.sampled_from([False, False, True]))}
+            'labels': labels + lab, 'reuse_handler': draw(st.sampled_from([False, False, True])),
+            'file_order': draw(st.sampled_from(['sorted', 'sorted', 'reversed', 'shuffled'])),
+            'second_source': draw(st.sampled_from([None, None, None, 0, 2, 9]))}
 
 
 PARTS = [
